@@ -72,12 +72,37 @@ def shard_e1(col, shard, ngrammars, ninputs):
         texts = [t[:48] for t in G.gen_inputs(rng, g, ninputs // 2)] + failing_after_cut_inputs(rng, g, ninputs - ninputs // 2)
         for t in texts:
             cases.append(R.Case(g, t))
+            if gi % 3 == 0:      # the commit must not depend on memo settings
+                cases.append(R.Case(g, t, None, E.Settings(prune_memos_on_cut=False)))
+                cases.append(R.Case(g, t, None, E.Settings(memoization=False, prune_memos_on_cut=rng.choice([None, False]))))
+    # optionals / groups whose inline body can match nothing but holds cuts behind nullable constructs
+    for _ in range(max(2, ngrammars // 3)):
+        nb = gen_nullable_body(rng)
+        wrap = rng.choice(['opt', 'group', 'optopt'])
+        body = ('opt', nb) if wrap == 'opt' else ('group', nb) if wrap == 'group' else ('opt', ('opt', nb))
+        post = rng.choice([[], [('tok', 'a')], [('tok', 'b'), ('tok', 'c')], ['eof']])
+        g = {'rules': [('start', [], ('seq', [body] + post))], 'directives': {}, 'keywords': []}
+        col.count('family.nullable-body-' + wrap)
+        for t in [t[:40] for t in G.gen_inputs(rng, g, 6)] + failing_after_cut_inputs(rng, g, 8):
+            cases.append(R.Case(g, t))
     R.differential(col, mr, cases, 'E1cut')
     if cases:
         col.sample(cases[len(cases) // 3].describe())
 
 
 # ---- docs/syntax.rst equivalences: [x] == x | () ; {x} == B = x B | () ; {x}+ == x {x}   (acceptance)
+def gen_nullable_body(rng):
+    """a body that can match nothing but contains cuts behind nullable constructs"""
+    toks = ['a', 'b', 'c', ',']
+    a, b, z = rng.sample(toks, 3)
+    return rng.choice([
+        ('seq', [('rep', False, None, False, ('seq', [('tok', a), 'cut', ('tok', b)])), ('rep', False, None, False, ('tok', z))]),
+        ('choice', [('seq', [('tok', a), 'cut', ('tok', b)]), 'void']),
+        ('seq', [('opt', ('seq', [('tok', a), 'cut', ('tok', b)])), ('opt', ('tok', z))]),
+        ('rep', False, ('tok', ','), False, ('seq', [('tok', a), 'cut', ('tok', b)])),
+    ])
+
+
 def gen_body(rng):
     """a body that surely consumes input, with cuts inside"""
     toks = ['a', 'b', 'c', ',']
@@ -134,11 +159,12 @@ def shard_docs(col, shard, n):
             for _ in range(6):
                 reps = rng.choice([0, 1, 2, 3]) if name != 'optional' else rng.choice([0, 1])
                 lex = [l for p in pre for l in G.sample_sentence(rng, gx, p)]
+                src_g, src_e = gx, x
                 for _r in range(reps):
-                    lex += G.sample_sentence(rng, gx, x)
+                    lex += G.sample_sentence(rng, src_g, src_e)
                 # a partial last iteration: fail right after a cut
                 if rng.random() < 0.6:
-                    part = G.sample_sentence(rng, gx, x)
+                    part = G.sample_sentence(rng, src_g, src_e)
                     lex += part[:rng.randrange(len(part) + 1)]
                 lex += [l for p in post for l in G.sample_sentence(rng, gx, p)]
                 if rng.random() < 0.2 and lex:
